@@ -408,10 +408,14 @@ func runReal(t *testing.T, b Behaviour, w *bufio.Writer, hops map[hopKey]*hop, d
 	if b.Cfg.Bounce {
 		bounce = &scripted.Bounce{Tr: tr, ID: reportID, Sender: from, OrigSubject: "verif-subject-" + itoa(b.ID)}
 	}
+	qlog := log.Logger{Out: log.NopOutput{}}
+	if os.Getenv("VERIF_DEBUG") != "" { // the queue's own log on stderr (for looking at a replayed behaviour)
+		qlog = log.Logger{Out: log.WriterOutput(os.Stderr, false), Debug: true, Name: "queue"}
+	}
 	q, err := queue.VerifNewQueue(queue.VerifConfig{
 		Location: dir, Target: tgt, Bounce: bounce, MaxTries: b.Cfg.Mt, MaxParallelism: 1,
 		InitialRetryTime: time.Millisecond, RetryTimeScale: 1, PostInitDelay: 0,
-		Hostname: "mx.example.org", AutogenMsgDomain: "example.org", Log: log.Logger{Out: log.NopOutput{}},
+		Hostname: "mx.example.org", AutogenMsgDomain: "example.org", Log: qlog,
 	})
 	if err != nil {
 		t.Fatal(err)
